@@ -19,15 +19,15 @@ import (
 
 // audited prunes: "<function>/<case label>" -> why nothing below needs visiting
 var auditedPrunes = map[string]string{
-	"pkg/dsl.validateMaps/body":                                                "a *Map is checked in place: a legal key type is a primitive scalar and has nothing below it",
+	"pkg/dsl.validateMaps/case *Map":                                           "a *Map is checked in place: a legal key type is a primitive scalar and has nothing below it",
 	"pkg/dsl.buildSymbolTable/case TypeDefinition":                             "only top-level definitions are registered; definitions do not nest",
 	"pkg/dsl.validateGenericTypeDefinitions/case *RecordDefinition,*NamedType": "records and aliases may be generic; nothing to check below",
 	"pkg/dsl.validateGenericTypeDefinitions/case TypeDefinition":               "enum/protocol definitions are checked at the definition node; definitions do not nest",
 	"pkg/dsl.topologicalSortTypes/case *ProtocolDefinition":                    "protocols cannot be referenced by types, so they take no part in the dependency order",
 	"pkg/dsl.topologicalSortTypes/case TypeDefinition":                         "already visited definition: either sorted (skip) or on the current path (cycle reported)",
 	"pkg/dsl.validateTypeDefinitionNames/case TypeDefinition":                  "names are checked at the definition node; definitions do not nest",
-	"pkg/dsl.validateRecordFieldNames/body":                                    "field names are checked at the record; records do not nest",
-	"pkg/dsl.validateProtocolSequenceNames/body":                               "step names are checked at the protocol; protocols do not nest",
+	"pkg/dsl.validateRecordFieldNames/case *RecordDefinition":                  "field names are checked at the record; records do not nest",
+	"pkg/dsl.validateProtocolSequenceNames/case *ProtocolDefinition":           "step names are checked at the protocol; protocols do not nest",
 	"pkg/dsl.containsOpenGeneric/case *SimpleType":                             "search: stops descending once an open generic parameter has been found",
 	"pkg/dsl.validateUnionCases/case *SimpleType":                              "type arguments are checked through the instantiated definition (ResolvedDefinition carries them after convertGenericReferences)",
 	"pkg/dsl.removeUnusedDeclarationPatterns/case *MemberAccessExpression":     "search: stops once a use of the declared variable has been found",
@@ -42,7 +42,7 @@ var auditedPrunes = map[string]string{
 	"pkg/dsl.resolveGenericDefinition/default(absent)":      "only alias chains are followed",
 	"pkg/dsl.resolveTo/case TypeDefinition":                 "target found, or a non-alias definition ends the chain",
 	"pkg/dsl.resolveTo/default(absent)":                     "only alias chains are followed",
-	"pkg/dsl.validateEnums/body":                            "enum values and base type are checked at the enum; enums do not nest",
+	"pkg/dsl.validateEnums/case *EnumDefinition":            "enum values and base type are checked at the enum; enums do not nest",
 }
 
 func hasNodeChildren(c *core.Ctx, t types.Type, nodeIface *types.Interface) bool {
@@ -400,7 +400,13 @@ func rulePrunesImpl(scopeFiles func(file string) bool, ruleID string, min int, p
 						report("default(absent)", sw.stmt, []types.Type{nodeIface}, exitAfterSwitchWithoutDescend(fc, desc, sw.stmt, vl.lit, exitReachable))
 					}
 				} else {
-					report("body", vl.lit, []types.Type{nodeIface}, exitReachable(fc.Entry()))
+					// `t, ok := node.(T); if !ok { self.VisitChildren(node); return }` followed by the handling of T
+					// is a switch with one case and a descending default
+					if k, rest := commaOkCase(info, vl.lit.Body, nodeAliases); k != nil && rest != nil {
+						report("case "+typeLabel(k), rest, []types.Type{k}, exitReachable(fc.BlockOf(rest)))
+					} else {
+						report("body", vl.lit, []types.Type{nodeIface}, exitReachable(fc.Entry()))
+					}
 				}
 			}
 		}
@@ -480,21 +486,34 @@ func ruleContextPositionTests(c *core.Ctx) {
 				for _, cs := range ts.cases {
 					// a case that reports an error under a negated type test of the context
 					var accepted types.Type
+					// `if _, ok := context.(*T); !ok { error }` — the assertion in the if's init or in a statement of its own
+					okVars := map[types.Object]types.Type{}
+					noteAssert := func(st ast.Stmt) {
+						as, isAs := st.(*ast.AssignStmt)
+						if !isAs || len(as.Rhs) != 1 || len(as.Lhs) != 2 {
+							return
+						}
+						ta, isTA := ast.Unparen(as.Rhs[0]).(*ast.TypeAssertExpr)
+						if !isTA || identObj(info, ta.X) != ctxObj || ta.Type == nil {
+							return
+						}
+						if o := identObj(info, as.Lhs[1]); o != nil {
+							okVars[o] = info.TypeOf(ta.Type)
+						}
+					}
 					for _, s := range cs.body {
-						ifs, ok := s.(*ast.IfStmt)
-						if !ok || ifs.Init == nil {
+						noteAssert(s)
+						ifs, isIf := s.(*ast.IfStmt)
+						if !isIf {
 							continue
 						}
-						as, ok := ifs.Init.(*ast.AssignStmt)
-						if !ok || len(as.Rhs) != 1 {
-							continue
+						if ifs.Init != nil {
+							noteAssert(ifs.Init)
 						}
-						ta, ok := ast.Unparen(as.Rhs[0]).(*ast.TypeAssertExpr)
-						if !ok || identObj(info, ta.X) != ctxObj || ta.Type == nil {
-							continue
-						}
-						if u, ok := ast.Unparen(ifs.Cond).(*ast.UnaryExpr); ok && u.Op == token.NOT {
-							accepted = info.TypeOf(ta.Type)
+						if u, isNot := ast.Unparen(ifs.Cond).(*ast.UnaryExpr); isNot && u.Op == token.NOT {
+							if t, ok := okVars[identObj(info, u.X)]; ok {
+								accepted = t
+							}
 						}
 					}
 					if accepted == nil || len(cs.types) != 1 || cs.types[0] == nil {
@@ -576,4 +595,54 @@ func ruleContextPositionTests(c *core.Ctx) {
 	if found == 0 {
 		c.Undecided(rule, "anchor/context type test", 0, "no context-typed acceptance test found in the validation visitors (validateStreams changed shape)")
 	}
+}
+
+// commaOkCase recognises, at the start of a visitor callback,
+//
+//	x, ok := node.(T)
+//	if !ok { self.VisitChildren(node...); return }
+//	<rest>
+//
+// and returns T and the first statement of <rest>.
+func commaOkCase(info *types.Info, body *ast.BlockStmt, nodeAliases map[types.Object]bool) (types.Type, ast.Stmt) {
+	if len(body.List) < 3 {
+		return nil, nil
+	}
+	as, ok := body.List[0].(*ast.AssignStmt)
+	if !ok || len(as.Lhs) != 2 || len(as.Rhs) != 1 {
+		return nil, nil
+	}
+	ta, ok := ast.Unparen(as.Rhs[0]).(*ast.TypeAssertExpr)
+	if !ok || ta.Type == nil || !nodeAliases[identObj(info, ta.X)] {
+		return nil, nil
+	}
+	okObj := identObj(info, as.Lhs[1])
+	ifs, ok := body.List[1].(*ast.IfStmt)
+	if !ok || ifs.Else != nil {
+		return nil, nil
+	}
+	u, ok := ast.Unparen(ifs.Cond).(*ast.UnaryExpr)
+	if !ok || u.Op != token.NOT || identObj(info, u.X) != okObj || okObj == nil {
+		return nil, nil
+	}
+	descends, returns := false, false
+	for _, st := range ifs.Body.List {
+		if es, ok := st.(*ast.ExprStmt); ok {
+			if ce, ok := es.X.(*ast.CallExpr); ok {
+				if sel, ok := ast.Unparen(ce.Fun).(*ast.SelectorExpr); ok && sel.Sel.Name == "VisitChildren" {
+					descends = true
+				}
+			}
+		}
+		if _, ok := st.(*ast.ReturnStmt); ok {
+			returns = true
+		}
+	}
+	if !descends || !returns {
+		return nil, nil
+	}
+	if o := identObj(info, as.Lhs[0]); o != nil {
+		nodeAliases[o] = true
+	}
+	return info.TypeOf(ta.Type), body.List[2]
 }
